@@ -64,6 +64,7 @@ type FuncVC struct {
 	usedLemmas   map[string]bool
 	unsupported  map[string]bool
 	unknownCalls map[string]bool
+	unclaimed    map[string]bool // obligations of a partially specified function that are generated but not claimed
 	assumed      map[string]bool
 	inlined      map[string]bool
 	safe         bool
@@ -191,6 +192,7 @@ func (vc *FuncVC) reset() {
 	vc.usedLemmas = map[string]bool{}
 	vc.unsupported = map[string]bool{}
 	vc.unknownCalls = map[string]bool{}
+	vc.unclaimed = map[string]bool{}
 	vc.assumed = map[string]bool{}
 	vc.inlined = map[string]bool{}
 	vc.oblNames = map[string]int{}
@@ -574,6 +576,20 @@ func (f *Frame) oblige(kind, name, cond, text string, pos token.Pos) {
 	var props []string
 	if vc.spec != nil {
 		props = vc.spec.Props
+	}
+	if vc.spec != nil && len(vc.spec.Only) > 0 && kind != "probe" {
+		keep := false
+		for _, pat := range vc.spec.Only {
+			if strings.Contains(name, pat) {
+				keep = true
+			}
+		}
+		if !keep {
+			// a partially specified function: this obligation is not claimed
+			// (the callers of oblige still assume the condition)
+			vc.unclaimed[name] = true
+			return
+		}
 	}
 	goal := Imp(f.curReach, cond)
 	o := &Obligation{Name: full, Fn: vc.key, Kind: kind, Goal: goal, Upto: len(vc.script.lines), Props: props,
